@@ -232,6 +232,16 @@ def step (s : St) : Op → St × Out
     | .ok s' => (s', ⟨"ok", []⟩)
     | _ => (s, ⟨"halt", []⟩)
 
+/-- sender and validator of the user-level operations (messages) -/
+def Op.sender : Op → Option (Addr × Val)
+  | .delegate u v _ _ _ => some (u, v)
+  | .undelegate u v _ _ _ => some (u, v)
+  | .claim u v => some (u, v)
+  | .block _ _ _ => none
+
+/-- accounts whose balances a message of `u` at validator `v` may change -/
+def touched (u : Addr) (v : Val) : List Addr := [saver v, u, moduleAcc, Convert.moduleAcc, "module:bonded_pool"]
+
 def run (s : St) : List Op → St
   | [] => s
   | op :: ops => run (step s op).1 ops
